@@ -91,7 +91,7 @@ CHECKS = {
  'C01': dict(
     technique='property-based differential testing against an independent RK4 solution of the NED navigation ODE on WGS-84; halving-change metamorphic rule',
     text='Generated initial states over the whole stated domain x 3-axis sinusoid-sum body signals x sensor type x h in 1..50 ms x horizons 2..300 s; the user path compute_increments_from_imu -> Integrator.integrate is compared with an own '
-         'reference (different formulation, own constants): err(h) <= 4*|X_h - X_h/2| + floor and err(h/2) <= 0.75 err(h) + floor per state group, so any error component that does not vanish with the interval is exposed. Exploration.',
+         'reference (different formulation, own constants): on the levels h, h/2, h/4 (, h/8): err(h_k) <= 4*max(|X_hk - X_hk/2|, |X_hk/2 - X_hk/4|) + floor and err(finest) <= 0.9 max err(coarser) + floor per state group, so any error component that does not vanish with the interval is exposed. Exploration.',
     note='Reference RK4 at 0.5/0.25 ms (their difference enters the floor); rounding floors 1e-4 m / 1e-6 m/s / 1e-9 rad; horizons 2..300 s in clause convergence and 1200 / 5064 s (one Schuler period) in clause schuler.',
     design='DESIGN.md section 4, C01'),
  'C03': dict(
